@@ -441,6 +441,40 @@ def run_real(sc: Scenario) -> RunResult:
     return res
 
 
+class _FakeTime:
+    """stands in for the `time` module inside the channel module for ONE timed read: the duration is found exceeded in the iteration
+    after `k` more (call 1 = `start = time.time()`, call n+1 = the test of iteration n)"""
+
+    def __init__(self, k, real):
+        self.k, self.calls, self.real = k, 0, real
+
+    def time(self):
+        self.calls += 1
+        return 0.0 if self.calls <= self.k + 1 else 1.0e9
+
+    def __getattr__(self, n):
+        return getattr(self.real, n)
+
+
+def _send_and_read_clocked(conn, op, is_async):
+    import importlib
+    mod = importlib.import_module(type(conn.channel).__module__)
+    fake = _FakeTime(op[4], mod.time)
+    if is_async:
+        async def go():
+            mod.time = fake
+            try:
+                return await conn.send_and_read(op[1], expected_outputs=list(op[2]), strip_prompt=op[3], read_duration=100000)
+            finally:
+                mod.time = fake.real
+        return go()
+    mod.time = fake
+    try:
+        return conn.send_and_read(op[1], expected_outputs=list(op[2]), strip_prompt=op[3], read_duration=100000)
+    finally:
+        mod.time = fake.real
+
+
 def _do(conn, op, is_async):
     k = op[0]
     if k == "get_prompt":
@@ -452,6 +486,8 @@ def _do(conn, op, is_async):
             return conn.send_commands(list(op[1]), strip_prompt=op[2], stop_on_failed=op[3], failed_when_contains=list(op[4]))
         return conn.send_commands(list(op[1]), strip_prompt=op[2])
     if k == "send_and_read":
+        if len(op) > 4 and op[4] is not None:
+            return _send_and_read_clocked(conn, op, is_async)
         return conn.send_and_read(op[1], expected_outputs=list(op[2]), strip_prompt=op[3], read_duration=100000)
     if k == "send_interactive":
         comp = op[2]
@@ -532,7 +568,9 @@ def model_request(sc: Scenario, res: RunResult) -> Optional[str]:
                         break
                 elif seen == nw + 2 and ev[0] in ("R", "pause"):
                     pz.append("1" if ev[0] == "pause" else "0")
-            ops.append(f"sar:{hexs(ci.encode())}:{'1' if kw.get('strip_prompt', True) else '0'}:{hexl(outs)}:{orx}:{''.join(pz) or '.'}")
+            clk = next((op[4] for op in sc.ops if op[0] == "send_and_read" and op[1] == ci and len(op) > 4 and op[4] is not None), None)
+            ops.append(f"sar:{hexs(ci.encode())}:{'1' if kw.get('strip_prompt', True) else '0'}:{hexl(outs)}:{orx}:{''.join(pz) or '.'}"
+                       + (f":{clk}" if clk is not None else ""))
         else:
             evs = kw.get("interact_events", a[0] if a else [])
             comp = kw.get("interaction_complete_patterns") or []
